@@ -545,7 +545,11 @@ def un_expr(x):
     return ("and" if x[0] == 2 else "or", un_expr(x[1]), un_expr(x[2]))
 
 
-CURRENT = (0, 1, 1)     # overflow mapped to ParseError; TypeError of nested lookup escapes; "(and)" accepted
+# overflow mapped to ParseError; TypeError of nested lookup escapes; "(and)" accepted; evaluation raises
+# RecursionError beyond 900 nested closure calls (nominal: the real threshold is Python's recursion limit minus the
+# frames in use, about 960-990 here; nothing between 400 and 1000 levels is generated)
+EVAL_DEPTH_LIMIT = 900
+CURRENT = (0, 1, 1, EVAL_DEPTH_LIMIT)
 
 
 # ------------------------------------------------------------------ mutations
@@ -812,6 +816,11 @@ class C18(Check):
             yield {"s": s, "exp": None, "u": "d14b", "kind": "d14b"}
         for s in ["(and)", "a or (or)", "( not)", "not (and)"]:
             yield {"s": s, "exp": None, "u": "main", "kind": "d14c"}
+        # D26: legal chains of about 1000 operands; parsing loops, evaluation recurses once per operand.  The documented
+        # value is True for the id "a" / "abc" and False otherwise
+        for s in [" or ".join(["a", "b"] * 500), " and ".join(["*a*", "*b*"] * 500),
+                  "(" + " and ".join(["a*"] * 1000) + ") or b"]:
+            yield {"s": s, "exp": None, "u": "mut", "kind": "d26", "matcher": True}
 
     def printed(self, t, mode, rng):
         toks = print_expr(t, mode, rng)
@@ -914,25 +923,34 @@ class C18(Check):
 
     def is_d14b(self, case, o, m, fi, rest):
         cur, ref, wanted = rest[2], rest[3], rest[4]
-        if self.canon(o) != m or cur != ref or set(fi) != {"value_equals_documented_semantics"}:
+        if self.canon(o) != m or not deep_eq(cur, ref) or set(fi) != {"value_equals_documented_semantics"}:
             return False
         diff = [(x, env) for x, w, env in zip(o[0], wanted, UNIVERSES[case["u"]]) if x != w]
         return bool(diff) and all(x == b"TypeError" and isinstance(env[1], SmartLookupDict) for x, env in diff)
 
     def model_should_hold(self, c):
-        return c["kind"] not in ("d14b", "d14c")
+        return c["kind"] not in ("d14b", "d14c", "d26")
 
     # ---- known findings
     def match_known(self, entry, case, failed):
-        try:
-            (c, o, m, fm, fi, rest), = self.evaluate([case])
-        except Exception:
-            return False
+        key = (case["s"], case["u"], case["kind"])
+        if getattr(self, "_mk_cache", (None,))[0] != key:      # one evaluation per case, not one per known entry
+            try:
+                self._mk_cache = (key, self.evaluate([case])[0])
+            except Exception:
+                return False
+        (c, o, m, fm, fi, rest) = self._mk_cache[1]
         if not fi or self.canon(o) != m:
             return False          # the model of the current code must reproduce the behaviour exactly
         cur, ref, wanted = rest[2], rest[3], rest[4]
         if entry["id"] == "D14b":
             return self.is_d14b(case, o, m, fi, rest)
+        if entry["id"] == "D26":
+            # exactly: a legal expression (reference parse ok) nested deeper than the nominal limit along the operands
+            # evaluated first, every call raised RecursionError, and the model of the current code says the same
+            return (set(fi) == {"legal_expression_raised_RecursionError"} and ref[0] == 0 and deep_eq(cur, ref)
+                    and spine_of(ref[1]) > EVAL_DEPTH_LIMIT
+                    and all(x == b"RecursionError" for x in o[0] + o[1]))
         if entry["id"] == "D14c":
             return cur[0] == 0 and ref[0] == 1 and set(fi) == {"rejected_with_ValueError"} \
                 and has_bare_keyword(case["s"])
@@ -953,6 +971,8 @@ class C18(Check):
                                  for i, (sid, d) in enumerate(UNIVERSES[c["u"]])]}
 
     def shrink(self, c):
+        if c["kind"] == "d26":
+            return
         e = c["exp"]
         if e is not None and e[0] != "atom":
             for sub in e[1:]:
@@ -1137,6 +1157,29 @@ def limits_family(quick):
         yield '@id_literal@"' + quote(ch, DQ)[1:-1] + '" or a'
         yield "@data_literal:'" + quote("k" + ch, SQ)[1:-1] + "'@v or a"
         yield "@data_literal:k" + ch + "@v or a"
+
+
+def deep_eq(a, b):
+    """equality of nested lists without recursion (parse results of very long chains are deeply nested)"""
+    stack = [(a, b)]
+    while stack:
+        x, y = stack.pop()
+        if isinstance(x, list) and isinstance(y, list):
+            if len(x) != len(y):
+                return False
+            stack.extend(zip(x, y))
+        elif isinstance(x, list) or isinstance(y, list) or x != y:
+            return False
+    return True
+
+
+def spine_of(x):
+    """nesting along the first-evaluated operands of an expression in sx form (iterative: the tree may be deep)"""
+    n = 1
+    while x[0] != 0:
+        x = x[1]
+        n += 1
+    return n
 
 
 def has_bare_keyword(s):
